@@ -70,6 +70,11 @@ def check_pair(c):
     is_poly(cat, a + b, k, "Poly//Poly")
     is_poly(A, a, k, "Poly//Poly:operand-changed")
     is_poly(B, b, k, "Poly//Poly:operand-changed")
+    expect(cat is not A and cat is not B, "Poly//Poly:result-is-an-operand")
+    if cat.dim:
+        guard(operator.setitem, cat, 0, red(cat.ival[0] + 1, k))      # writing through the result must not reach the operands
+        is_poly(A, a, k, "Poly//Poly:operand-changed-through-result")
+        is_poly(B, b, k, "Poly//Poly:operand-changed-through-result")
 
 
 def check_unary(c):
